@@ -1,6 +1,8 @@
 package workceptor
 
 import (
+	"time"
+	"os/exec"
 	"fmt"
 	"os"
 
@@ -203,4 +205,53 @@ func Verif_C13_unit_id_spellings() {
 		verifapi.Assert("refused-release-leaves-unit-intact", verifapi.All(statErr == nil, len(wk.w.activeUnits) == 1))
 	}
 	verifapi.Assert("no-lock-left-held", verifapi.HeldLocks() == 0)
+}
+
+// Verif_C13_cancel_stops_the_process: the runner's cancel handler (termThenKill) against a payload that
+// either exits on the interrupt or ignores it (process signalling replaced by a recording model): the
+// interrupt is sent first, and a payload that is still there after the grace period is killed - a
+// cancelled unit's process does not survive the cancellation.
+func Verif_C13_cancel_stops_the_process() {
+	dir := verifapi.TempDir()
+	_ = verifWorkceptor(dir)
+	var calls []string
+	verifapi.Redirect("(*os.Process).Signal", func(p *os.Process, sig os.Signal) error {
+		calls = append(calls, "signal")
+		return nil
+	})
+	verifapi.Redirect("(*os.Process).Kill", func(p *os.Process) error {
+		calls = append(calls, "kill")
+		return nil
+	})
+	cmd := &exec.Cmd{Process: &os.Process{Pid: 77}} // started, Wait has not returned: ProcessState is nil
+	doneChan := make(chan bool, 1)
+	stubborn := verifapi.Bool()
+	returned := make(chan struct{})
+	go func() {
+		termThenKill(cmd, doneChan)
+		close(returned)
+	}()
+	verifapi.Quiesce()
+	verifapi.Assert("interrupt-sent-first", len(calls) >= 1 && calls[0] == "signal")
+	if stubborn {
+		verifapi.AdvanceTime(10 * time.Second)
+	} else {
+		doneChan <- true // cmdWaiter: the payload exited on the interrupt
+	}
+	verifapi.Quiesce()
+	verifapi.Cover("cancel-handler-finished")
+	select {
+	case <-returned:
+	default:
+		verifapi.Assert("cancel-handler-returns", false)
+	}
+	killed := false
+	for _, c := range calls {
+		if c == "kill" {
+			killed = true
+		}
+	}
+	if stubborn {
+		verifapi.Assert("payload-that-ignores-the-interrupt-is-killed", killed)
+	}
 }
